@@ -250,8 +250,9 @@ def apply_rules(text, rules):
             continue
         if "forbid" in r:
             # nothing matching the pattern may survive the earlier rules (an unmapped construct): drift, not a guess
-            if re.search(r["forbid"], text, re.S):
-                raise ExtractionDrift("rule %r: unmapped text %r remains" % (r["name"], re.search(r["forbid"], text, re.S).group(0)[:60]))
+            hay = re.sub(r'"(?:\\.|[^"\\])*"', '""', text) if r.get("outside_strings") else text  # emitted text may legitimately contain C++
+            if re.search(r["forbid"], hay, re.S):
+                raise ExtractionDrift("rule %r: unmapped text %r remains" % (r["name"], re.search(r["forbid"], hay, re.S).group(0)[:60]))
             fired.append((r["name"], 0))
             continue
         flags = r.get("flags", re.S)
